@@ -2,7 +2,7 @@
 // are the real text of src/tag_parser.rs; `WinnowBlockTagParser::next` (the winnow grammar,
 // tag_parser.rs:50-185) is out of scope and enters as an ASSUMED specification over the
 // uninterpreted scan function `scan_tag`.
-// Needs: prelude/strings.rs (blen), prelude/blockp_strings.rs (char_boundary, char_at, char_len).
+// Needs: prelude/tstr_mod.rs (blen), prelude/blockp_strings.rs (char_boundary, char_at, char_len).
 
 //@item file=src/tag_parser.rs kind=enum name=BlockTag
 //@item file=src/tag_parser.rs kind=struct name=WinnowBlockTagParser
